@@ -30,6 +30,9 @@ CASES = [
     ("y ~ x:z + w", {"y", "x", "z", "w"}, {"x": ["x:z"], "z": ["x:z"], "w": ["w"]}),
     ("y ~ 0 + f:x:z", {"y", "x", "z", "f"}, {"x": ["f[*"], "z": ["f[*"]}),
     # a variable that the expansion removes again is not used by the formula
+    # a missing numerator over a divisor that is exactly 0 in that row (zz is 0 in row 1 only): NaN, as for every other row
+    ("y ~ I(x / zz) + w", {"y", "x", "zz", "w"}, {"x": ["I(x / zz)"], "w": ["w"]}),
+    ("y ~ np.log(x / zz + 10)", {"y", "x", "zz"}, {"x": ["np.log(x / zz + 10)"]}),
     ("y ~ x + z - z", {"y", "x"}, {"x": ["x"]}),
     ("y ~ x*z - z - x:z", {"y", "x"}, {"x": ["x"]}),
     ("y ~ x + (z|g) - (z|g) - (1|g)", {"y", "x"}, {"x": ["x"]}),
@@ -60,6 +63,8 @@ def frame(seed, n=20):
     d = pd.DataFrame({"y": rng.normal(size=n), "x": rng.normal(size=n) + 3, "z": rng.uniform(1, 9, size=n), "w": rng.normal(size=n),
                       "w w": rng.normal(size=n), "f": _cover(rng, ["a", "b", "c"], n), "g": _cover(rng, ["u", "v", "w"], n),
                       "h": _cover(rng, ["p", "q"], n), "unused": rng.normal(size=n), "unused_s": _cover(rng, ["k", "l"], n)})
+    d["zz"] = rng.uniform(1, 3, size=n)
+    d.loc[1, "zz"] = 0.0              # (row 1 is the row the single-column patterns make incomplete)
     return d
 
 
